@@ -159,7 +159,7 @@ def main(tier):
     core.build_shim()
     ck.built = built
     full = len(EXT_LISTS) * len(SRC_FORMS) * len(CFG_FORMS) * len(CWDS)
-    n = full if tier == "quick" else full * 18
+    n = full * 5 if tier == "quick" else full * 60
     for res in frame.pmap(work, [(built, ck.seed, i) for i in range(n)], chunksize=4):
         ck.absorb(res)
     ck.extra["product"] = {"extension_lists": EXT_LISTS, "source_dir_forms": SRC_FORMS, "config_path_forms": CFG_FORMS, "cwds": CWDS}
